@@ -1,7 +1,7 @@
 """C11 - a load that returns means required fields are set and every validator passed."""
 from typing import Optional
 
-from cincoconfig import (FeatureFlagField, IntField, ListField, Schema, StringField, validator)
+from cincoconfig import (DictField, FeatureFlagField, IntField, ListField, Schema, StringField, validator)
 from cincoconfig.core import Config, ValidationError
 
 from vf.hlib import hold, obligation, skip
@@ -11,7 +11,7 @@ ENC = ["cincoconfig.core.Schema._validate", "cincoconfig.core.Schema._validate_f
        "cincoconfig.core.Config.load_tree", "cincoconfig.core.Field.validate"]
 
 LEVELS = ("root", "sub", "deep", "item_load", "item_append", "ct")
-KINDS = ("int", "str", "list")
+KINDS = ("int", "str", "list", "dict")
 
 
 def _field(kind: str, required: bool, has_default: bool):
@@ -19,6 +19,8 @@ def _field(kind: str, required: bool, has_default: bool):
         return IntField(required=required, default=5 if has_default else None)
     if kind == "str":
         return StringField(required=required, default="d" if has_default else None)
+    if kind == "dict":
+        return DictField(StringField(), IntField(), required=required, default=(lambda: {"k": 1}) if has_default else None)
     return ListField(IntField(), required=required, default=(lambda: [1]) if has_default else None)
 
 
@@ -30,6 +32,8 @@ def _value(kind: str, valkind: int):
         return 0 if valkind == 1 else 9
     if kind == "str":
         return "" if valkind == 1 else "v"
+    if kind == "dict":
+        return {} if valkind == 1 else {"j": 3}
     return [] if valkind == 1 else [3]
 
 
@@ -37,7 +41,7 @@ def _is_set(kind: str, value) -> bool:
     """'has a value (not unset, and not empty for strings, lists and dicts)'"""
     if value is None:
         return False
-    if kind in ("str", "list") and len(value) == 0:
+    if kind in ("str", "list", "dict") and len(value) == 0:
         return False
     return True
 
@@ -107,11 +111,11 @@ def _run(level: str, kind_i: int, required: bool, has_default: bool, present: bo
         # the document does not mention the (sub)configuration at all: its defaults stay, and it is still validated
         tree = {}
     # effective value of r after the load (reference)
-    default_val = _value(kind, 2) if False else ({"int": 5, "str": "d", "list": [1]}[kind] if has_default else None)
+    default_val = {"int": 5, "str": "d", "list": [1], "dict": {"k": 1}}[kind] if has_default else None
     cfg = schema()
     prior_val = None
     if prior and level in ("root",):
-        prior_val = {"int": 4, "str": "p", "list": [4]}[kind]
+        prior_val = {"int": 4, "str": "p", "list": [4], "dict": {"p": 4}}[kind]
         cfg.r = prior_val
     elif prior:
         skip("prior state only modelled for the root level")
@@ -164,6 +168,16 @@ def _run(level: str, kind_i: int, required: bool, has_default: bool, present: bo
             pass  # nested inside a disabled configuration: not fixed by the statement
         else:
             hold("returns", "owner" in log, "validator of an enabled (sub)configuration was not run")
+    # a required container emptied in place must be reported by an explicit validation (both modes)
+    if raised is None and required and kind in ("list", "dict") and level == "root" and _is_set(kind, effective):
+        cfg.r.clear()
+        try:
+            cfg.validate()
+            hold("returns", False, "validate() returned although a required container is now empty")
+        except ValidationError:
+            pass
+        hold("collect", len(cfg.validate(collect_errors=True)) > 0, "collecting mode missed the empty required container")
+        return True
     # collecting mode agrees with raising mode on the same state
     if level not in ("item_append", "item_load") or raised is None:
         try:
@@ -180,8 +194,8 @@ def _run(level: str, kind_i: int, required: bool, has_default: bool, present: bo
 
 def _mk(level: str):
     @obligation(prop="C11", name="required_" + level, group="required", sites=("raises", "returns", "collect"),
-                encodes=ENC, budget={"quick": 240, "thorough": 600},
-                what="field r (int/str/list) at level %s with symbolic required / has-default / present-in-tree / "
+                encodes=ENC, budget={"quick": 500, "thorough": 900},
+                what="field r (int/str/typed list/typed dict) at level %s with symbolic required / has-default / present-in-tree / "
                      "value None|empty|non-empty / prior state / raising validators at its own and the root level / "
                      "feature flag none|on|off: the load returns iff the recursive oracle finds no unset required "
                      "field and no raising validator in an enabled configuration; raised type is ValidationError; "
@@ -189,7 +203,7 @@ def _mk(level: str):
     def ob(kind_i: int, required: bool, has_default: bool, present: bool, valkind: int, prior: bool,
            v_raises: bool, v_outer_raises: bool, flag: int, omit: bool) -> bool:
         """
-        pre: 0 <= kind_i <= 2 and 0 <= valkind <= 2 and 0 <= flag <= 2
+        pre: 0 <= kind_i <= 3 and 0 <= valkind <= 2 and 0 <= flag <= 2
         post: _
         """
         if omit and (present or level in ("root", "item_load", "item_append")):
